@@ -580,7 +580,12 @@ func (rd *HandlingDataManager) buildHAProxyFlowsEndpointsRequest() *config.HAPro
 			reqCaptureForAll = reqCaptureForAll || (manageAll && requirements.IsReqCaptureRequired)
 		}
 
-		for _, method := range filters[0].GetSupportedMethods() {
+		methods := filters[0].GetAllowedMethods()
+		if len(methods) == 0 {
+			// a filter that names no method accepts every method: one expression for any method
+			methods = []string{config.RegexToMatchAnyMethod}
+		}
+		for _, method := range methods {
 			managedEndpoints = append(managedEndpoints,
 				config.HaproxyEndpointFormat(method, filters[0].GetURL(), requirements))
 		}
